@@ -292,7 +292,14 @@ def gen_load(g, model, chain, dt_hint=None, overload=None, families=None):
             terms.append({'t': 'quad',
                           'c': r.uniform(0.0, 0.3) * k * J / max(w_out, 1e-9)})
         elif f == 'sinpos':
-            terms.append({'t': 'sinpos', 'A': amp, 'w': g.logu(0.05, 5.0),
+            wv = g.logu(0.05, 5.0)
+            if dt_hint:
+                # keep the position stiffness small against the step, so
+                # that rounding differences are not amplified (differentials)
+                amax = 0.1 * J / (dt_hint * dt_hint * wv)
+                if abs(amp) > amax:
+                    amp = math.copysign(amax, amp)
+            terms.append({'t': 'sinpos', 'A': amp, 'w': wv,
                           'ph': r.uniform(0, 2 * pi)})
         elif f == 'sintime':
             terms.append({'t': 'sintime', 'A': amp,
@@ -403,7 +410,7 @@ def gen_dyn(g):
     return scn
 
 
-def add_control(g, scn, model, chain, p=0.5, kinds=None):
+def add_control(g, scn, model, chain, p=0.5, kinds=None, uniform=False):
     """Optionally add a rule set and switch control on in the runs."""
     r = g.rng
     if not g.chance(p):
@@ -430,7 +437,7 @@ def add_control(g, scn, model, chain, p=0.5, kinds=None):
                           'value': r.choice([0, 1, -1, round(r.uniform(-1, 1), 3)])})
     scn['rules'] = rules
     for op in scn['schedule']:
-        if op['op'] == 'run' and g.chance(0.85):
+        if op['op'] == 'run' and (uniform or g.chance(0.85)):
             op['control'] = True
 
 
@@ -621,3 +628,68 @@ def gen_grid(g):
 
 
 PROFILES['grid'] = gen_grid
+
+
+# ---------------------------------------------------------------------------
+# C12: continuation and reset/rerun
+
+def gen_sched(g):
+    r = g.rng
+    mode = r.choice(['split', 'split', 'rerun', 'rerun', 'rerun_split'])
+    lockish = g.chance(0.45)
+    scn, model, chain = base_scenario(
+        g, 'sched', force_worm=True if lockish else None,
+        self_locking=True if lockish else None,
+        n_target=r.choice([2, 3, 4, 5, 6, 8]))
+    k = rm.rate_constant(model, chain)[0]
+    fam = r.choice([['const'], ['const', 'sintime'], ['sintime'],
+                    ['const', 'visc'], ['sinpos'], ['quad', 'const'],
+                    ['step', 'const']])
+    kdt = g.logu(0.02, 1.2)
+    dt_si = kdt / k
+    scn['load'] = gen_load(g, model, chain, families=fam, dt_hint=dt_si,
+                           overload=r.choice([0.3, 0.8, 1.5, 5]) if lockish
+                           else r.choice([0.2, 0.6, 1.0]))
+    scn['init'] = gen_init(g, model, chain)
+    if scn['init']['pwm'] is None:
+        scn['init']['pwm'] = 1
+    units = si.units_of('TimeInterval')
+    u0 = r.choice(units)
+    nseg = r.choice([2, 2, 3])
+    steps = g.cfg.get('steps', (3, 50))
+    segs = []
+    for j in range(nseg):
+        u = u0 if (j == 0 or g.chance(0.5)) else r.choice(units)
+        n = r.randint(*steps)
+        op = {'op': 'run', 'dt': [dt_si / si.factor('TimeInterval', u), u],
+              'n': n, 'control': False, 'stop': None, 'solver': 'same',
+              'T_mode': 'product'}
+        if g.chance(0.4):
+            op['T_mode'] = 'literal'
+            op['T'] = [op['dt'][0] * n, u]
+        segs.append(op)
+    scn['mode'] = mode
+    import copy
+    if mode == 'split':
+        scn['schedule'] = segs
+    else:
+        first = segs if mode == 'rerun_split' else segs[:1]
+        if mode == 'rerun' and g.chance(0.4):
+            # another dt in the second run of the repeated schedule
+            op = gen_run(g, k, kdt=g.logu(0.02, 1.2), unit=r.choice(units))
+            first = first + [op]
+        scn['schedule'] = first
+    add_control(g, scn, model, chain, p=0.6, uniform=(mode == 'split'),
+                kinds=r.choice([['Scripted'], ['Scripted'], ['ConstantPWM'],
+                                ['ConstantPWM', 'ConstantPWM']]))
+    if mode != 'split' and g.chance(0.3):
+        add_stops(g, scn, model, chain, p=1.0)
+    if mode != 'split':
+        second = copy.deepcopy(scn['schedule'])
+        second[0]['solver'] = r.choice(['same', 'new'])
+        scn['schedule'] = scn['schedule'] + \
+            [{'op': 'reset', 'reapply': True}] + second
+    return scn
+
+
+PROFILES['sched'] = gen_sched
